@@ -8,6 +8,7 @@ import (
 	"errors"
 	"fmt"
 	"math/big"
+	"os"
 	"runtime/debug"
 	"sort"
 	"strings"
@@ -193,7 +194,7 @@ func (w *World) probeBalances(n *Node, extra []string) {
 	callMark := len(w.AccCalls)
 	netMark := len(w.Net.Log)
 	quietBefore := w.Net.quiet()
-	truncMark := n.Log.TruncStarts
+	truncMark, truncDoneMark := n.Log.TruncStarts, n.Log.Truncs+len(n.Log.Fatals)
 	addrs := append([]string{}, w.WAddr...)
 	for _, nn := range w.Nodes {
 		addrs = append(addrs, nn.Addr)
@@ -266,14 +267,20 @@ func (w *World) probeBalances(n *Node, extra []string) {
 	}
 	after := w.snapshot(n)
 	undisturbed := callMark == len(w.AccCalls) && netMark == len(w.Net.Log) && quietBefore && w.Net.quiet() && len(before.Parked) == 0 && after != nil && len(after.Parked) == 0
-	if n.Log.TruncStarts != truncMark || n.Log.TruncStarts != n.Log.Truncs+len(n.Log.Fatals) {
+	if n.Log.TruncStarts != truncMark || n.Log.Truncs+len(n.Log.Fatals) != truncDoneMark {
 		undisturbed = false // the weight-triggered truncation loop ran (or is running) during the queries
 	}
 	if !undisturbed {
 		w.probe("c06-purity-not-judged-concurrent-activity")
 	}
+	if after != nil && undisturbed && snapDigest(before) != snapDigest(after) && w.onlyKnownVerticesAdded(before, after) {
+		// an orphan popped from the retry buffer is, for a moment, neither parked nor in the ledger;
+		// its admission during the queries is other activity the brackets above cannot see
+		w.probe("c06-purity-not-judged-orphan-admitted-meanwhile")
+		undisturbed = false
+	}
 	if after != nil && undisturbed && snapDigest(before) != snapDigest(after) {
-		w.violate("C06", "purity", "balance-query-changed-ledger", n.Idx, "digest %s -> %s", snapDigest(before), snapDigest(after))
+		w.violate("C06", "purity", "balance-query-changed-ledger", n.Idx, "digest %s -> %s; changed: %s", snapDigest(before), snapDigest(after), snapDiff(before, after))
 	}
 	// C02 supply clause on a single-tip ledger with every vertex but the tip confirmed
 	if sumOK && len(before.Trusted) == 0 && curD == snapDigest(before) {
@@ -678,11 +685,11 @@ func (w *World) execStep(i int, s *Step) {
 			}
 		}
 		var before *Snap
+		if !s.NoWait {
+			before = w.snapshot(n) // may wait for the ledger lock: the marks below are taken afterwards
+		}
 		mark := len(w.AccCalls)
 		cmark := len(w.Created)
-		if !s.NoWait {
-			before = w.snapshot(n)
-		}
 		w.spawnOp(fmt.Sprintf("n%d:%s#%d", n.Idx, s.Op, i), n, res, func(ctx context.Context) error {
 			return w.propose(ctx, n, &trx, via, res)
 		})
@@ -732,6 +739,12 @@ func (w *World) execStep(i int, s *Step) {
 		}
 		if clean && created != nil && before != nil && after != nil {
 			w.probe("c09-created-vertex-checked")
+			if os.Getenv("SIM_DEBUG_CREATED") != "" {
+				for k, c := range w.Created {
+					w.note("created[%d] n%d %s trx %s at %d", k, c.Node, hx(c.V.Hash), hx(c.V.Transaction.Hash), c.At)
+				}
+				w.note("cmark %d mark %d calls %d before.At %d leaves %v", cmark, mark, calls, before.At, before.Leaves)
+			}
 			w.checkCreated(before, created)
 			w.checkTipsDropped(before, after)
 		}
@@ -954,4 +967,39 @@ func snapDiff(a, b *Snap) string {
 		out = append(out[:12], "...")
 	}
 	return strings.Join(out, " ")
+}
+
+// onlyKnownVerticesAdded: b differs from a only by additional live vertices that were created or crafted
+// earlier in this run (and their index entries); nothing was removed, nothing stored, no funds changed.
+func (w *World) onlyKnownVerticesAdded(a, b *Snap) bool {
+	if len(a.Stored) != len(b.Stored) || len(a.FundsRaw) != len(b.FundsRaw) {
+		return false
+	}
+	for h := range a.Live {
+		if _, ok := b.Live[h]; !ok {
+			return false
+		}
+	}
+	for h := range a.Stored {
+		if _, ok := b.Stored[h]; !ok {
+			return false
+		}
+	}
+	for k, v := range a.FundsRaw {
+		if bv, ok := b.FundsRaw[k]; !ok || string(bv) != string(v) {
+			return false
+		}
+	}
+	added := 0
+	for h, sv := range b.Live {
+		if _, was := a.Live[h]; was {
+			continue
+		}
+		av := w.Archive.V[h]
+		if av == nil || !sameSigned(&av.V, &sv.V) {
+			return false
+		}
+		added++
+	}
+	return added > 0
 }
